@@ -25,8 +25,21 @@ def main():
         s = s[: s.index(a) + len(a)] + "\n" + table + "\n" + s[s.index(b):]
     else:
         s = s.replace("SEEDTABLE", a + "\n" + table + "\n" + b, 1)
+    # quick-tier numbers from the committed evidence
+    rows2 = ["| id | evaluations | distinct non-trivial | traces accepted by TLC | TLC states | TLC runs | wall | exhaustive |", "|---|---|---|---|---|---|---|---|"]
+    for i in range(1, 20):
+        pid = f"C{i:02d}"
+        f = os.path.join(VERIF, "evidence", pid + ".json")
+        if not os.path.exists(f):
+            continue
+        e = json.load(open(f))
+        c = e["coverage"]
+        rows2.append(f"| {pid} | {c['evaluations']} | {c['distinct_nontrivial']} | {c['traces_validated_against_impl']} | {c['states']} | {len(c['tlc_runs'])} | {e['wall_s']:.0f} s ({e['tier']}) | {'yes' if c.get('exhaustive') else 'parts'} |")
+    a2, b2 = "<!-- RESTABLE-BEGIN -->", "<!-- RESTABLE-END -->"
+    if a2 in s:
+        s = s[: s.index(a2) + len(a2)] + "\n" + "\n".join(rows2) + "\n" + s[s.index(b2):]
     open(p, "w").write(s)
-    print(len(rows) - 2, "seeds in table")
+    print(len(rows) - 2, "seeds in table;", len(rows2) - 2, "checks in results table")
 
 
 if __name__ == "__main__":
